@@ -281,7 +281,7 @@ ssize_t _whawty_write_data(int sock, const void* data, size_t len, int timeout)
       return ret;
     }
 
-    ssize_t nwritten = write(sock, (void*)(data + offset), len - offset);
+    ssize_t nwritten = send(sock, (void*)(data + offset), len - offset, MSG_NOSIGNAL);
     if(nwritten < 0 || (nwritten == 0 && errno != EINTR)) {
       return offset;
     }
